@@ -69,7 +69,11 @@ Others == {Comment("hash", " c "), Comment("inline", "c"), Comment("block", " c 
            Unless(Y, <<NText("u")>>, <<Elif(X, <<NText("ue")>>)>>, Else(<<NText("uf")>>)),
            Macro("m", <<Param("a"), ParamD("b", S("dflt"))>>, <<NOut(P(V("a"))), NOut(P(V("b"))), NOut(P(V("args"))), NOut(P(VP("kwargs", "z")))>>),
            Call("m", <<I(1)>>, <<>>), Call("m", <<I(1), I(2), I(3)>>, <<WArg("z", S("kw"))>>), Call("m", <<>>, <<WArg("b", Y), WArg("a", X)>>),
-           With(<<WArg("a", I(1)), WArg("b", Y)>>, <<NOut(P(V("a"))), NOut(P(V("b")))>>)}
+           With(<<WArg("a", I(1)), WArg("b", Y)>>, <<NOut(P(V("a"))), NOut(P(V("b")))>>),
+           \* tag-level names written as quoted strings
+           Quoted(Incr("c")), Quoted(Decr("c")), Quoted(Cycle("g", <<I(1), S("b")>>, "g|1,b")),
+           Quoted(Macro("qm", <<Param("a")>>, <<NOut(P(V("a")))>>)), Quoted(Call("m", <<I(1)>>, <<>>)),
+           Quoted(Block("blk", FALSE, <<NText("in block")>>))}
 
 MCPool == {NOut(e) : e \in Exprs} \cup {Assign("z", e) : e \in {P(p) : p \in Prims}} \cup {Echo(e) : e \in {P(p) : p \in ArrLits}}
           \cup Liquids \cup Others \cup {NOut(P(V("z"))), NText(" t ")}
